@@ -16,12 +16,12 @@ CLAIMS = {
          TRUST + "Not verifiable here: reflection over arbitrary user-defined types (methods with side effects), encoding/gob on hostile bytes, memory exhaustion. Panic freedom of the Go index arithmetic is evidenced by the correspondence (the model uses total list operations where Go slices) and the fuzz, not by a theorem.",
          "Lean 4 proof (fuel adequacy/monotonicity = termination of the transliterated parsers; totality of the decoder) + fuzz/type-zoo search on the real code", "DESIGN.md §4 C05"),
  "C11": ("proof",
-         "Lean theorems over the validated whole-pipeline model, for every include node, option combination, context and `go`: after an include the includer's context (variables, macros, blocks, flags) is exactly what it was (C11_non_interference, built on evalX_ctx: expression evaluation never changes the context); the included template sees the `with` variables (last duplicate wins) over the includer's visible variables, only the `with` variables under `only`, the flattened copy of the whole scope chain under `sandboxed` (C11_visibility_*); a missing template is empty output under `ignore missing` and notFound otherwise, any other failure propagates even with `ignore missing` (C11_ignore_missing, _only_missing, _existing_failure_reported). Engine globals are in the model: C11_context_shadows_global, C11_global_visible_everywhere, C11_global_visible_in_only_include, C11_defined_iff / C11_defined_scope_independent. "
+         "Lean theorems over the validated whole-pipeline model, for every include node, option combination, context and `go`: after an include the includer's context (variables, macros, blocks, flags) is exactly what it was (C11_non_interference, built on evalX_ctx: expression evaluation never changes the context); the included template sees the `with` variables (last duplicate wins) over the includer's visible variables, only the `with` variables under `only`, the flattened copy of the whole scope chain under `sandboxed` (C11_visibility_*); a missing template is empty output under `ignore missing` and notFound otherwise, any other failure propagates even with `ignore missing` (C11_ignore_missing, _only_missing, _existing_failure_reported). An included template that extends a layout keeps the includer's scopes (C11_extends_keeps_visibility, C11_extends_hands_over). Relative names (./x, ../x) resolve against the directory of the template the render call started from, then fall back to the name as written (resolveTpl over pathClean/pathDir/pathJoin = Go's filepath: C11_relative_resolves_against_entry, C11_relative_falls_back_to_written, C11_relative_without_entry, C11_resolved_name_is_clean, C11_include_resolved). Engine globals are in the model: C11_context_shadows_global, C11_global_visible_everywhere, C11_global_visible_in_only_include, C11_defined_iff / C11_defined_scope_independent. "
          "Tie: 4 variable names × unset/context/set-before × with/only/ignore missing/sandboxed × static/computed/missing/failing target × placement at top level, in a loop, block, macro, nested include; view of the included template and probes before/after checked against the scope rule on the real engine and against the Lean pipeline.",
          TRUST + "The includer's macros are hidden from a sandboxed include and loop variables stay bound after a loop — modelled as in Go; the property is silent on both.",
          "Lean 4 proof (frame reasoning over the context chain) + differential correspondence + scope-rule oracle", "DESIGN.md §4 C11"),
  "C03": ("proof",
-         "Lean permutation-invariance lemma per loop schema (copy-all, delete-all, collect-then-sort, any-match, min-key, keyed copy, guarded fallback …) and C03_sites_order_independent: every `range` over a map and every reflect MapKeys/MapRange call in the package, regenerated from the Go source with its schema, is order-insensitive or in a justified allow-list; the key comparator of sortedMapKeys is modelled and proved a total order on everything observable (C03_sorted_keys_total_order, any number of NaN keys), hash literals are last-wins in source order, merge is stable, the date-format translation is a single left-to-right pass (C03_dateformat_single_pass). "
+         "Lean permutation-invariance lemma per loop schema (copy-all, delete-all, collect-then-sort, any-match, min-key, keyed copy, guarded fallback …) and C03_sites_order_independent: every `range` over a map and every reflect MapKeys/MapRange call in the package, regenerated from the Go source with its schema, is order-insensitive or in a justified allow-list; the key comparator of sortedMapKeys is modelled and proved a total order on everything observable (C03_sorted_keys_total_order, any number of NaN keys), hash literals are last-wins in source order, merge is stable, the date-format translation is a single left-to-right pass (C03_dateformat_single_pass); no process-wide state other than the closed list of C01 exists (C03_process_state_closed, regenerated from the source). "
          "Tie: 46 extracted map-iteration sites re-classified on every run; programs over nested/typed/interface-keyed maps rendered 30× in-process and in child processes; 16 155 date formats against time.Format of the model's layout. Known findings: printing addresses / macro objects, pointer keys with equal content, printing a map with several NaN keys.",
          TRUST + "Schema recognisers are syntactic and conservative; error-text nondeterminism (which of several failing `with` expressions is reported) is counted, not treated as a violation.",
          "Lean 4 proof (permutation invariance per schema, total-order proof of the comparator) + regenerated site table + repeated-render / fresh-process oracle", "DESIGN.md §4 C03"),
@@ -56,7 +56,7 @@ CLAIMS = {
          TRUST + "One allow-listed drop site (renderVariableString, macro-body text containing a literal `{{`) is outside the model and not verified.",
          "Lean 4 proof (parallel-run simulation up to the failing invocation) + regenerated error-drop table + fault-injection correspondence", "DESIGN.md §4 C17"),
  "C10": ("proof",
-         "Lean theorems over the validated whole-pipeline model for extends chains of ANY length: the root pass hands the base template exactly the list of definitions of every block, most derived first (C10_registerBlocks_spec); an extending template renders none of its own top-level nodes (C10_child_text_no_output); every block node, wherever it stands, renders the head of that list, an empty override renders nothing (C10_block_renders_most_derived, C10_empty_override); parent() renders the next definition with the same variables and restores the level, error when there is none (C10_parent); nothing but the root pass changes the block table (C10_frame); C10_substitution ties renderTop of the most derived template to the base rendered under the chain's table. "
+         "Lean theorems over the validated whole-pipeline model for extends chains of ANY length: the root pass hands the base template exactly the list of definitions of every block, most derived first (C10_registerBlocks_spec); an extending template renders none of its own top-level nodes (C10_child_text_no_output); every block node, wherever it stands, renders the head of that list, an empty override renders nothing (C10_block_renders_most_derived, C10_empty_override); parent() renders the next definition with the same variables and restores the level, error when there is none (C10_parent); nothing but the root pass changes the block table (C10_frame); C10_substitution ties renderTop of the most derived template to the base rendered under the chain's table; the chain theorem holds from an ARBITRARY starting context, i.e. also for an extending template that was reached through an include. "
          "Tie: every assignment of omit/define/blank/parent() for ≤ 3 levels × ≤ 2 blocks and sampled chains to 5 levels, rendered by the real engine, by the Lean pipeline from source, and by an independent substitution spec written in the harness.",
          TRUST + "The deep claim 'every block at any nesting depth sees the table' follows compositionally from the frame lemma; it is not stated as one closed equation.",
          "Lean 4 proof (induction on chain length and fuel, frame lemma over the mutual recursion) + differential correspondence + independent spec oracle", "DESIGN.md §4 C10"),
@@ -66,7 +66,7 @@ CLAIMS = {
          TRUST + "Not proved: agreement of the two macro declaration parsers (the combined-token path is unreachable from the tokenizer).",
          "Lean 4 proof (route-by-route evaluation lemmas, binding induction) + differential correspondence + independent spec oracle", "DESIGN.md §4 C12"),
  "C01": ("proof",
-         "Lean proof for ALL histories, all pool behaviours (Get picks any pooled object or allocates; gc drops any subset) and 1..n engines: the pooled machine, parameterised by facts about which fields every acquire path resets and every release clears, produces exactly the outputs of the pool-free machine (C01_history_independence), a render leaves every cache and cached object unchanged (C01_render_preserves_cache), no cached object is ever pooled, no double release, no stale field is ever read. "
+         "Lean proof for ALL histories, all pool behaviours (Get picks any pooled object or allocates; gc drops any subset) and 1..n engines: the pooled machine, parameterised by facts about which fields every acquire path resets and every release clears, produces exactly the outputs of the pool-free machine (C01_history_independence), a render leaves every cache and cached object unchanged (C01_render_preserves_cache), no cached object is ever pooled, no double release, no stale field is ever read. The process-wide state of the package is a closed list regenerated from the source (emitter ProcState: every package-level variable with every use that can change it): C01_process_state_closed, C01_pools_get_put_only — only the pools (used through Get/Put), attributeCache (C20), string interning, byte buffers and the logger survive a call. "
          "Tie: histories on real engines (register, parse-only, ok/failing renders, cache toggles, GC, several engines) compared per render with a fresh engine, with a pristine child process and with the Lean model under LIFO/FIFO/random pool oracles.",
          TRUST + "The field/reset tables of the facts record are hand-transcribed (cross-checked with a go/ast script, validated by the correspondence); sync.Pool's real scheduling is over-approximated by the oracle; the per-template render function of this model is a small evaluator (the full renderer is the separate pipeline model).",
          "Lean 4 proof (simulation invariant over all operation histories and pool oracles) + differential correspondence + pristine-process oracle", "DESIGN.md §4 C01"),
@@ -81,7 +81,7 @@ CLAIMS = {
          TRUST + "Provenance classification is intra-procedural and conservative; user methods called through attribute access may mutate their receivers (callbacks, excluded by the property).",
          "Lean 4 proof (frame rule) + regenerated write-site provenance table + snapshot oracle", "DESIGN.md §4 C18"),
  "C19": ("proof",
-         "Lean theorems for every input of the stated type: idempotence of upper/lower/trim/capitalize/title (under case-map laws checked against Go's unicode tables for every code point on every run), reverse involution and length preservation (with Go's exact UTF-8 decoding), sort = ordered permutation (and canonical), length = number of items first/last/slice/for observe, split∘join, default, merge, keys, slice = Twig's index rules for every 64-bit start/length (C19_slice_total), round = exact decimal rounding for common/ceil/floor (C19_round_exact, C19_round_mode_exact), abs, number_format digit grouping. The same filters inside arbitrary programs: TwigProofs/C19Pipe.lean (34 theorems C19_pipe_*) proves that the pipeline model's length/first/last/reverse/trim/slice/sort/split/capitalize/title are the filter model's functions on converted values and transports the equations to pipeline level. "
+         "Lean theorems for every input of the stated type: idempotence of upper/lower/trim/capitalize/title (under case-map laws checked against Go's unicode tables for every code point on every run), reverse involution and length preservation (with Go's exact UTF-8 decoding), sort = ordered permutation (and canonical), length = number of items first/last/slice/for observe, split∘join, default, merge, keys, slice = Twig's index rules for every 64-bit start/length (C19_slice_total), round = exact decimal rounding for common/ceil/floor (C19_round_exact, C19_round_mode_exact), abs, number_format digit grouping (a negative number of decimals means none, more than a million is an error: C19_number_format_negative_decimals, C19_number_format_too_many_decimals). The same filters inside arbitrary programs: TwigProofs/C19Pipe.lean (34 theorems C19_pipe_*) proves that the pipeline model's length/first/last/reverse/trim/slice/sort/split/capitalize/title are the filter model's functions on converted values and transports the equations to pipeline level. "
          "Tie: ≈ 190 000 model comparisons per quick run through real templates, plus the equations checked directly on implementation output. Known findings (pinned by the repo's own tests): number_format decimal ties, multi-character split, split of an empty join.",
          TRUST + "Trusted: strings.Map/Fields/TrimSpace/regexp.Split read into rune-level definitions; FormatFloat/ParseFloat round-trip of decimals with ≤ 15 digits; binary evaluation exact away from ties for number_format.",
          "Lean 4 proof (per-filter algebraic laws for all inputs) + differential correspondence", "DESIGN.md §4 C19"),
